@@ -56,8 +56,21 @@ def run(chk, replay=None):
         base = rng.randrange(lo // 1000, hi // 1000) * 1000
         for k in range(1000):
             instants.add(base + k)
+    # instants that fit the narrow integer types catalogs of short sequences are stored in (the first days around the epoch)
+    narrow = [86_400_000, -86_400_000, 2 ** 31 - 1, -2 ** 31, 2_147_484, -2_147_484, 1_000_000_007, 40_000, -40_000, 32_767, -32_768, 33, -33]
+    instants.update(narrow)
     instants = sorted(instants)
     chk.log('%d instants' % len(instants))
+
+    def typed(ms, idx):
+        """the instant as the caller's arrays hold it: a Python int, or a numpy integer of a type that holds it"""
+        if ms in narrow or idx % 7 == 3:
+            if -2 ** 15 <= ms < 2 ** 15 and idx % 2:
+                return numpy.int16(ms)
+            if -2 ** 31 <= ms < 2 ** 31:
+                return numpy.int32(ms)
+            return numpy.int64(ms)
+        return ms
 
     def pair_of(x):
         return (-999999, 0) if isinstance(x, Raised) or x is None else split(int(x))
@@ -65,7 +78,7 @@ def run(chk, replay=None):
     records, raw = [], []
     for idx, ms in enumerate(instants):
         day, msd = split(ms)
-        dt = guarded(tu.epoch_time_to_utc_datetime, ms)
+        dt = guarded(tu.epoch_time_to_utc_datetime, typed(ms, idx))
         chk.count()
         if isinstance(dt, Raised):
             records.append([day, msd] + [-1] * 7 + [-999999, 0] * 3 + [0, -999999, 0, 0])
